@@ -466,8 +466,6 @@ func r073(c *Ctx, rule string) {
 	gate := c.method("Service", "handlePausedAndStoppedRequests")
 	lbf := c.method("Service", "loadBalancerForRequest")
 	serve := c.method("LoadBalancer", "ServeHTTP")
-	redirQ := c.method("Service", "shouldRedirectToHTTPS")
-	redir := c.method("Service", "redirectToHTTPS")
 	gs := callsTo(fn, gate)
 	if len(gs) != 1 {
 		c.undecided(rule, "serviceRequestWithTarget/gate", fn.Pos(), "expected one gate call")
@@ -483,17 +481,12 @@ func r073(c *Ctx, rule string) {
 		c.ob(rule, "forward-to-chosen-balancer", cs.pos(), ok && isCallTo(call.Common(), lbf), true, "the request must be served by the balancer loadBalancerForRequest chose")
 	}
 	// TLS policy decisions precede the gate and end the request
-	rq := callsTo(fn, redirQ)
-	okRedir := len(rq) == 1
+	_, site := c.redirectSite(rule)
+	okRedir := site != nil
 	if okRedir {
-		q := rq[0].instr.(*ssa.Call)
-		_, noRedirect := boolFacts(g, sameAs(q))
-		okRedir = noRedirect
-		for _, cs := range callsTo(fn, redir) {
-			yes, _ := boolFacts(cs.instr, sameAs(q))
-			_, toGate := reach(fn, cs.instr, func(in ssa.Instruction) bool { return in == ssa.Instruction(g) }, nil)
-			okRedir = okRedir && yes && !toGate
-		}
+		_, toGate := reach(fn, site, func(in ssa.Instruction) bool { return in == ssa.Instruction(g) }, nil)
+		_, fromGate := reach(fn, g, func(in ssa.Instruction) bool { return in == ssa.Instruction(site) }, nil)
+		okRedir = !toGate && !fromGate
 	}
 	c.ob(rule, "redirect-decision-precedes-gate", g.Pos(), okRedir, true, "the gate must be reached only when no HTTPS redirect applies, and a redirect ends the request")
 	n503 := 0
